@@ -10,16 +10,17 @@ from astlib import *
 
 
 def run_calc(calc, mode, text, tmpdir, idx):
+    tmo = 30 if len(text) < 60000 else 900
     try:
         if mode == "file":
             path = os.path.join(tmpdir, "s%d.calc" % idx)
             with open(path, "w") as f:
                 f.write(text)
-            p = subprocess.run([calc, path], capture_output=True, text=True, timeout=30, stdin=subprocess.DEVNULL)
+            p = subprocess.run([calc, path], capture_output=True, text=True, timeout=tmo, stdin=subprocess.DEVNULL)
         elif mode == "repl":
-            p = subprocess.run([calc], input=text, capture_output=True, text=True, timeout=30)
+            p = subprocess.run([calc], input=text, capture_output=True, text=True, timeout=tmo)
         else:
-            p = subprocess.run([calc, "-eval", text], capture_output=True, text=True, timeout=30, stdin=subprocess.DEVNULL)
+            p = subprocess.run([calc, "-eval", text], capture_output=True, text=True, timeout=tmo, stdin=subprocess.DEVNULL)
         return p.returncode, p.stdout, p.stderr
     except subprocess.TimeoutExpired:
         return -9, "", "timeout"
@@ -61,6 +62,13 @@ def run(tier, replay=None):
         raise vlib.Infra("ReplLoop.tla invariant failed: " + r.violation)
     ck.add_tlc(r, "ReplLoop.tla: documented grouping, scripts of <= %d statements" % n)
     scripts = [json.loads(l[4:]) for l in r.lines if l.startswith("OBS ")]
+    # the same shapes with lines longer than 64 KiB (a line of 70000 characters, an expression of 7001 terms)
+    rl = vlib.run_tlc("ReplLoop", "ReplLoop_long.cfg", timeout=1200)
+    if rl.violation:
+        raise vlib.Infra("ReplLoop.tla invariant failed: " + rl.violation)
+    ck.add_tlc(rl, "ReplLoop.tla: scripts of <= 2 statements containing a line longer than 64 KiB")
+    longs = [json.loads(l[4:]) for l in rl.lines if l.startswith("OBS ")]
+    scripts += longs
     if replay:
         case = json.load(open(replay))["case"]
         scripts = [case["script"]] if "script" in case else []
@@ -69,7 +77,8 @@ def run(tier, replay=None):
         text = "\n".join(s["lines"])
         jobs.append((i, "file", text + "\n", s["file"], "file mode, final line break"))
         jobs.append((i, "file", text, s["file"], "file mode, no final line break"))
-        jobs.append((i, "repl", text + "\n", "calc repl\n" + s["repl"], "REPL mode"))
+        if len(text) < 60000 or len(s["names"]) == 1 or (tier != "quick" and i % 4 == 0):      # the REPL's line editor needs seconds for a line of 70000 characters
+            jobs.append((i, "repl", text + "\n", "calc repl\n" + s["repl"], "REPL mode"))
     diff_rawcounts = sum(1 for s in scripts if not s["rawcounts"])
     with concurrent.futures.ThreadPoolExecutor(max_workers=vlib.NCPU) as ex:
         futs = {ex.submit(run_calc, calc, mode, text, tmpdir, k): (k, i, mode, text, want, what) for k, (i, mode, text, want, what) in enumerate(jobs)}
@@ -84,10 +93,10 @@ def run(tier, replay=None):
             if rc != 0 or out != want:
                 ck.violation("%s: script %s (%r): expected output %r, got %r%s" % (what, "+".join(s["names"]), text[:120], want[:200], out[:200], (" exit %d %s" % (rc, err[:200])) if rc else ""),
                              {"script": s, "mode": what, "stdout": out, "exit": rc})
-    ck.cov["distinct_nontrivial"] = sum(1 for s in scripts if len(s["lines"]) > len(s["names"]) or any(x in ("strLB", "strRB", "strLK", "strRK", "cmtLB", "cmtLK", "cmtQ", "escQ", "semi", "blockstr", "mlstrblank", "arrayblank", "blockblank", "blockmlstr", "arraymlstr", "longline", "longexpr") for x in s["names"]))
-    ck.part("scripts", scripts=len(scripts), differ_from_raw_character_counting=diff_rawcounts)
+    ck.cov["distinct_nontrivial"] = sum(1 for s in scripts if len(s["lines"]) > len(s["names"]) or any(x in ("strLB", "strRB", "strLK", "strRK", "cmtLB", "cmtLK", "cmtQ", "escQ", "semi", "blockstr", "mlstrblank", "arrayblank", "blockblank", "blockmlstr", "arraymlstr", "longline", "longexpr", "ifelseFa", "ifelseTa", "ifelseFw", "ifelseTw", "ifelseFl", "ifelseTl") for x in s["names"]))
+    ck.part("scripts", scripts=len(scripts), with_a_line_longer_than_64KiB=len(longs), differ_from_raw_character_counting=diff_rawcounts)
     for s in scripts[:: max(1, len(scripts) // 3)][:3]:
-        ck.sample({"lines": s["lines"], "file_mode_output": s["file"], "repl_transcript": s["repl"]})
+        ck.sample({"lines": [l[:200] for l in s["lines"]], "file_mode_output": s["file"][:200], "repl_transcript": s["repl"][:200]})
     # ---- single statements in the three modes, values from CalcSem
     if not replay:
         exprs = [e for e in gens.exprs_depth1()[vlib.seed() % 11::(31 if tier == "quick" else 6)]]
